@@ -210,6 +210,20 @@ pub fn directed_streams() -> Vec<Vec<SFrame>> {
         st.key = g.to_vec();
         out.push(vec![set(b"dk", 0x401 + 0x10 * i as u32), std(st), std(wire::key_only(op::GET, b"dk", 0, 0x403 + 0x10 * i as u32)), std(wire::bare(op::NOOP, 0x404 + 0x10 * i as u32))]);
     }
+    // oversized quiet requests (5000 bytes: above every limit these suites use): answered 'too large' like the loud ones,
+    // skipped, and the connection goes on
+    for (i, opc) in [op::APPENDQ, op::PREPENDQ, op::SETQ, op::ADDQ, op::GETKQ, op::DELETEQ].iter().enumerate() {
+        let b = 0x500 + 0x10 * i as u32;
+        let mut f = Frame::new(*opc);
+        f.opaque = b + 2;
+        f.key = b"dk".to_vec();
+        if matches!(*opc, op::SETQ | op::ADDQ) {
+            f.extras = vec![0; 8];
+        }
+        f.value = vec![b'o'; 5000];
+        let over = SFrame { kind: Kind::Oversize, opcode: *opc, opaque: b + 2, bytes: f.bytes() };
+        out.push(vec![set(b"dk", b + 1), over, std(wire::key_only(op::GET, b"dk", 0, b + 3)), std(wire::bare(op::NOOP, b + 4))]);
+    }
     // quiet mutations that fail: the error must reach the client whatever follows
     out.push(vec![set(b"dk", 0x301), std(wire::set_like(op::ADDQ, b"dk", b"x", 0, 0, 0, 0x302)), quit(true, 0x303)]);
     out.push(vec![std(wire::set_like(op::REPLACEQ, b"absent", b"x", 0, 0, 0, 0x311)), quit(true, 0x312)]);
